@@ -901,7 +901,9 @@ class Unit:
             # The resulting quantity may get quantized. Therefore we
             # have to calculate the final amount before creating the result!
             amnt, unit = self / other.unit
-            return (other.amount * amnt) * unit
+            if unit is None:    # dimensions cancel => plain number
+                return amnt / other.amount
+            return (amnt / other.amount) * unit
         return NotImplemented
 
     def __rtruediv__(self, other: Any) -> Quantity:
